@@ -3,6 +3,7 @@ package harness
 // C20 — Clone returns an equal, fully independent copy.
 
 import (
+	"errors"
 	"fmt"
 	"testing"
 
@@ -163,6 +164,11 @@ func checkC20(r *run, c *CloneCase) (CaseInfo, error) {
 	if c.FromWire {
 		ci.class("from-wire")
 		p, err := m.packet()
+		if errors.Is(err, errAppbitsNotLegacy) {
+			ci.class("appbits-profile-not-legacy")
+
+			return ci, nil
+		}
 		if err != nil {
 			return ci, failf("model not constructible: %v", err)
 		}
@@ -176,6 +182,11 @@ func checkC20(r *run, c *CloneCase) (CaseInfo, error) {
 		}
 	} else {
 		p, err := m.packet()
+		if errors.Is(err, errAppbitsNotLegacy) {
+			ci.class("appbits-profile-not-legacy")
+
+			return ci, nil
+		}
 		if err != nil {
 			return ci, failf("model not constructible: %v", err)
 		}
